@@ -75,6 +75,9 @@ pub enum NOp {
     /// Sim::reverse_lookup(addr of name) — only names looked up before
     Reverse(u16),
     ReverseInside(u16),
+    /// Sim::reverse_lookup of an address the simulated DNS may never have handed out: loopback, other
+    /// prefixes, small host numbers (the low bits of the n-th name's address under another prefix)
+    ReverseLiteral(u32),
     /// literal address (as IpAddr / as string), built from the value
     LiteralIp(u32),
     LiteralStr(u32),
@@ -489,6 +492,7 @@ fn gen_names(rng: &mut Rng) -> NamesSc {
             9..=11 => NOp::LookupInside(name),
             12..=14 => NOp::Reverse(name),
             15 => NOp::ReverseInside(name),
+            16 if rng.bool() => NOp::ReverseLiteral(rng.next_u64() as u32),
             16 => NOp::LiteralIp(rng.next_u64() as u32),
             17 => NOp::LiteralStr(rng.next_u64() as u32),
             18 | 19 => NOp::Regex(rng.below(REGEXES.len() as u64) as u8),
@@ -1370,6 +1374,37 @@ fn run_names(sc: &NamesSc, keep: bool) -> Report {
                                 }
                             }
                         }
+                    }
+                }
+                NOp::ReverseLiteral(x) => {
+                    let k = 1 + (*x >> 8) % (known.order.len() as u32 + 2);
+                    let a: IpAddr = if ipv6 {
+                        match x % 4 {
+                            0 => IpAddr::V6(std::net::Ipv6Addr::LOCALHOST),
+                            1 => IpAddr::V6(std::net::Ipv6Addr::new(0xfd00, 0, 0, 0, 0, 0, 0, k as u16)),
+                            2 => IpAddr::V6(std::net::Ipv6Addr::new(0x2001, 0xdb8, 0, 0, 0, 0, 0, k as u16)),
+                            _ => IpAddr::V6(std::net::Ipv6Addr::new(0xfe80, 0, 0, 0, 0, 0, 0, k as u16)),
+                        }
+                    } else {
+                        match x % 4 {
+                            0 => IpAddr::V4(std::net::Ipv4Addr::LOCALHOST),
+                            1 => IpAddr::V4(std::net::Ipv4Addr::new(10, 0, (k >> 8) as u8, k as u8)),
+                            2 => IpAddr::V4(std::net::Ipv4Addr::new(172, 16, (k >> 8) as u8, k as u8)),
+                            _ => IpAddr::V4(std::net::Ipv4Addr::new(192, 168, (k >> 8) as u8, k as u8)),
+                        }
+                    };
+                    let g = sim.reverse_lookup(a);
+                    log.ev(format!("#{i} reverse_lookup(literal {a}) -> {g:?}"));
+                    log.tag("rvl");
+                    probes.inc("reverse_lookups_of_addresses_not_necessarily_handed_out");
+                    let owner = known.by_addr.get(&a).cloned();
+                    match (&g, &owner) {
+                        // the answer names a name that maps somewhere else: not an inverse of lookup
+                        (Some(n), _) if known.by_name.get(n).map(|b| *b != a).unwrap_or(false) => {
+                            Some(Violation::new("ReverseMismatch", format!("reverse_lookup({a}) = Some({n:?}) but lookup({n}) = {}", known.by_name[n])))
+                        }
+                        (None, Some(n)) => Some(Violation::new("ReverseMismatch", format!("lookup({n}) = {a} but reverse_lookup({a}) = None"))),
+                        _ => None,
                     }
                 }
                 NOp::LiteralIp(x) | NOp::LiteralStr(x) => {
